@@ -466,6 +466,18 @@ def StaticFact.disciplined (s : StaticFact) : Bool :=
 
 def globalsDisciplined (f : GlobalFacts) : Bool := f.statics.all StaticFact.disciplined
 
+/-- where the Roto name of a registered type comes from when a Rust signature is
+turned into Roto types -/
+inductive NameSource
+  | ownList      -- the runtime's own list of registered types (`runtime.get_runtime_type`)
+  | foreign      -- anything else: the process-global registry entry, a cache
+  | structural   -- the arm builds the type from its parts, no name involved
+  deriving DecidableEq, Repr
+
+/-- the decision: every name comes from the runtime's own list (and some arm does
+resolve a name, so the fact is about something) -/
+def namesPerRuntime (l : List NameSource) : Bool := l.all (fun s => s != .foreign) && l.contains .ownList
+
 /-- a lookup happens before the first insert of a section -/
 def lookupBeforeInsert (ops : List TableOp) : Bool :=
   (ops.takeWhile (fun o => o != .insert)).contains .lookup
